@@ -224,15 +224,18 @@ Lemma pow10_succ (k : nat) : 10 ^ Z.of_nat (S k) = 10 * 10 ^ Z.of_nat k.
 Proof. rewrite Nat2Z.inj_succ. unfold Z.succ. rewrite Z.pow_add_r by lia. lia. Qed.
 
 (* the fuel of to_digits_rev does not matter once it is enough *)
-Lemma tdr_fuel : forall (f f' : nat) n, 0 <= n < 10 ^ Z.of_nat f -> n < 10 ^ Z.of_nat f' ->
-  to_digits_rev f 10 n = to_digits_rev f' 10 n.
+Lemma tdr_fuel : forall (f f' : nat) n, 0 <= n < 10 ^ Z.of_nat (S f) -> n < 10 ^ Z.of_nat (S f') ->
+  to_digits_rev (S f) 10 n = to_digits_rev (S f') 10 n.
 Proof.
   induction f as [|f IH]; intros f' n Hn Hn'.
-  - change (10 ^ Z.of_nat 0) with 1 in Hn. assert (n = 0) by lia. subst n.
-    destruct f' as [|f'']; [reflexivity|]. change (10 ^ Z.of_nat 0) with 1 in Hn'. lia.
-  - destruct f' as [|f']; [change (10 ^ Z.of_nat 0) with 1 in Hn'; lia|].
-    cbn [to_digits_rev]. destruct (Z.ltb_spec n 10); [reflexivity|]. f_equal.
-    rewrite pow10_succ in Hn, Hn'. apply IH; lia.
+  - change (10 ^ Z.of_nat 1) with 10 in Hn. cbn [to_digits_rev].
+    destruct (Z.ltb_spec n 10); [reflexivity | lia].
+  - rewrite (pow10_succ (S f)) in Hn.
+    change (to_digits_rev (S (S f)) 10 n) with (if n <? 10 then [n] else n mod 10 :: to_digits_rev (S f) 10 (n / 10)).
+    change (to_digits_rev (S f') 10 n) with (if n <? 10 then [n] else n mod 10 :: to_digits_rev f' 10 (n / 10)).
+    destruct (Z.ltb_spec n 10); [reflexivity|]. f_equal.
+    destruct f' as [|f']; [change (10 ^ Z.of_nat 1) with 10 in Hn'; lia|].
+    rewrite (pow10_succ (S f')) in Hn'. apply IH; lia.
 Qed.
 
 Lemma log2_fuel n : 0 <= n -> n < 10 ^ Z.of_nat (S (Z.to_nat (Z.log2 n))).
@@ -246,6 +249,9 @@ Proof.
   replace (10 * n mod 10) with 0 by lia. replace (10 * n / 10) with n by lia.
   cbn [rev]. f_equal. f_equal.
   pose proof (log2_fuel (10 * n) ltac:(lia)) as H1. fold F in H1. rewrite pow10_succ in H1.
+  assert (HF : (1 <= F)%nat).
+  { unfold F. assert (1 <= Z.log2 (10 * n)); [|lia]. apply Z.log2_le_pow2; lia. }
+  destruct F as [|F']; [lia|].
   apply tdr_fuel; [lia | apply log2_fuel; lia].
 Qed.
 
@@ -310,3 +316,55 @@ Proof.
   rewrite rev_length in H. apply (f_equal (@rev Z)) in H. rewrite rev_involutive, rev_app_distr, rev_repeat in H.
   symmetry. exact H.
 Qed.
+
+(* ------------------------------------------------------------------------------------------------ *)
+(* an integer mantissa n * 10^j with exponent -j prints as the digits of n *)
+
+Lemma zlen_repeat {A} (x : A) n : zlen (repeat x n) = Z.of_nat n.
+Proof. unfold zlen. rewrite repeat_length. reflexivity. Qed.
+
+Lemma mem_digits l : forallb is_digit l = true -> mem 46 l = false.
+Proof.
+  induction l as [|x l IH]; [reflexivity|]. cbn [forallb mem existsb]. intros H. apply andb_prop in H as [Hx Hl].
+  fold (mem 46 l). rewrite (IH Hl). unfold is_digit in Hx. destruct (Z.eqb_spec 46 x); [lia | reflexivity].
+Qed.
+
+Theorem str_of_decimal_int F n j ts : fmt_str_ok F -> n <> 0 -> 0 <= j ->
+  10 ^ (c_digits (d_C F) - 1) <= Z.abs n * 10 ^ j < 10 ^ c_digits (d_C F) ->
+  str_of_decimal F (n * 10 ^ j) (- j) ts = dec_str (Z.abs n) ++ (if ts then d_sigil F else []).
+Proof.
+  intros HF Hn0 Hj Hrange. destruct HF as [Hsig _ Hd]. set (d := c_digits (d_C F)) in *.
+  set (V := Z.abs n) in *. assert (HV : 0 < V) by (unfold V; lia).
+  assert (Hpj : 0 < 10 ^ j) by (apply Z.pow_pos_nonneg; lia).
+  unfold str_of_decimal. fold d.
+  (* the digit string *)
+  assert (Habs : Z.abs (n * 10 ^ j) = V * 10 ^ j) by (unfold V; rewrite Z.abs_mul; lia).
+  assert (Hlen : zlen (dec_str (V * 10 ^ j)) = d) by (apply dec_str_len_exact; lia).
+  assert (Hpow : dec_str (V * 10 ^ j) = dec_str V ++ repeat 48 (Z.to_nat j)).
+  { rewrite <- (Z2Nat.id j Hj) at 1. apply dec_str_pow10, HV. }
+  assert (Hgd : get_digits (n * 10 ^ j) d = dec_str V ++ repeat 48 (Z.to_nat j)).
+  { unfold get_digits. rewrite Habs, Hlen, Z.sub_diag. cbn [Z.to_nat repeat app]. exact Hpow. }
+  rewrite Hgd, rstrip0_zeros.
+  assert (Hs : zlen (dec_str V) = d - j).
+  { rewrite Hpow, zlen_app', zlen_repeat, Z2Nat.id in Hlen by lia. lia. }
+  set (s := dec_str V) in *. set (r := rstrip0 s).
+  assert (Hsd : forallb is_digit s = true) by (apply dec_str_digits; lia).
+  destruct (rstrip0_spec s Hsd) as [Hrl Hrd]. fold r in Hrl, Hrd.
+  destruct (Z.gtb_spec (- j + (d - 1)) (d - 1)) as [|_]; [lia|].
+  destruct (Z.gtb_spec (zlen r - (- j + (d - 1))) (d + 1)) as [|_]; [lia|]. cbn [orb].
+  (* decimal notation, no point *)
+  unfold decimal_notation.
+  destruct (Z.geb_spec (- j + (d - 1) + 1) (zlen r)) as [_|]; [|lia].
+  assert (Hpad : r ++ repeat 48 (Z.to_nat (- j + (d - 1) + 1 - zlen r)) = s).
+  { pose proof (rstrip0_pad s) as Hp. fold r in Hp.
+    replace (Z.to_nat (- j + (d - 1) + 1 - zlen r)) with (length s - length r)%nat by (unfold zlen in *; lia).
+    exact Hp. }
+  rewrite Hpad, (mem_digits s Hsd). cbn [negb orb]. reflexivity.
+Qed.
+
+(* sign or leading blank of Float.to_str *)
+Definition sign_str (neg leading_space : bool) : list Z :=
+  if neg then [45] else if leading_space then [32] else [].
+
+Lemma sign_plain neg ls : forallb plain (sign_str neg ls) = true.
+Proof. destruct neg, ls; reflexivity. Qed.
